@@ -22,6 +22,7 @@ def dispatch (cmd : String) (args : List Sexp) : Option String :=
   | "pycore.run" => Driver.PyCore.runCmd args
   | "pycore.runO" => Driver.PyCore.runOCmd args
   | "pycore.scopestable" => Driver.PyCore.scopeStableCmd args
+  | "pycore.exctable" => Driver.PyCore.excTableCmd args
   | "hoist.place" => Driver.Rename.hoistPlace args
   | "rename.assign" => Driver.Rename.assignCmd args
   | "ministring" => Driver.Strings.ministring args
